@@ -88,3 +88,77 @@ CHECKS['C11'] = dict(
                          for y in [':valid', ':invalid']] + ['Support:either']),
     assumptions=[A_SHAPE],
 )
+
+CHECKS['C03'] = dict(
+    title='Spline arithmetic is pointwise arithmetic of the denoted functions',
+    level='model_checking',
+    engine='E1 input enumerator + breadth-first search over in-place update histories',
+    technique='bounded-exhaustive enumeration of operand pairs/collections plus explicit-state breadth-first search over all histories of in-place updates of one spline (exact-value state key), every step executed on the real code and compared with an exact reference',
+    level_text='(a) Every ordered window pair on 5-point grids (all 13 Allen relations, empty, point-like), order pairs 0..2 (thorough 0..3 and (4,0),(0,4)), unit/zero/generic coefficient patterns, for + - * += -=, scalar forms over 6 scalars, unary minus, same-object forms, cross-order assignment and linearCombination of 1..3 splines: the result must denote exactly the reference sum/difference/product/multiple. (b) All histories of += -= = (copy, move, lower order) *= /= on one target up to depth 4 (thorough 6) explored breadth-first with exact-state deduplication; the reference is stepped in parallel and compared after every transition.',
+    level_note='Trusted: GMP, engine/refpp.h. States of the history search are exact (window, coefficients) values; every transition is an execution of the real operators, so traces_validated_against_impl equals transitions. Coefficient values outside the patterns: A-poly; window placements on larger grids: A-shape.',
+    units=lambda tier: [unit('e1', 'checks/c03_arith.cpp', 'exact', args=['--part', 'e1']),
+                        unit('e1-chk', 'checks/c03_arith.cpp', 'chk', args=['--part', 'e1']),
+                        unit('hist', 'checks/c03_arith.cpp', 'exact', args=['--part', 'hist'])],
+    rule='E1 cases = (grid, window pair, order pair, operation, coefficient-pattern pair) etc.; history cases = one transition of the BFS (history + next operation). Non-trivial = the operands (or the expected result of the transition) are non-zero functions.',
+    bounds=dict(quick='2 grid families n=5; orders 0..2; lincomb k<=3 (every third triple); histories depth 4 (order-2 target) / 3 (order-1 target) on a 4-point grid, 24 operations',
+                thorough='4 grid families; orders 0..3 plus (4,0),(0,4); all lincomb triples; histories depth 6 (order 2) and 5 (order 1)'),
+    guards=dict(classes=['add:intervalxinterval:' + r for r in ALLEN13] + ['mul:intervalxinterval:' + r for r in ALLEN13] +
+                ['iadd:intervalxinterval:before', 'isub:pointxinterval:during', 'add:emptyxinterval:n/a', 'scalar:a/c', 'scalar:c*a', 'self:a*a', 'self:a-=a', 'assign',
+                 'lincomb:k1', 'lincomb:k2', 'lincomb:k3', 'history:+=src0', 'history:=move(src1)', 'history:-=src4', 'history:/=3'],
+                counters=['states', 'transitions']),
+    mc_note='states = distinct exact target values reached (counted per worker partition below the split level, so a state reached by two workers is counted twice); transitions = operator applications executed and compared.',
+    assumptions=[A_SHAPE, A_POLY],
+)
+
+CHECKS['C04'] = dict(
+    title='Primitive operators are d^n/dx^n and multiplication by x^n on every interval',
+    level='exploration',
+    technique='bounded-exhaustive enumeration over the template matrix (operator power x spline order) and over grids, windows and coefficient patterns on the real operators against the exact reference derivative / x^n',
+    level_text='Dx<n> for n = 0..order+2, X<n> for n = 0..4 (thorough 0..6) and the identity on Spline<order>, order 0..3 (0..4), every window of grids far from, around and left of the origin, unit/zero/generic coefficients; the result must denote exactly the reference n-th derivative / x^n times the stored polynomial on every interval, and (I*s)==s.',
+    level_note='Trusted: GMP, engine/refpp.h (derivative and multiplication by x in the global monomial basis). Template parameters beyond the enumerated matrix are not instantiated.',
+    units=std_units('checks/c04_primitive.cpp'),
+    rule='cases = (grid, operator instantiation, spline order, window, coefficient pattern). Non-trivial = operand is a non-zero function.',
+    bounds=dict(quick='grids far4, neg4; orders 0..3; Dx 0..order+2; X 0..4', thorough='4 families n=5; orders 0..4; X 0..6'),
+    guards=dict(classes=['Dx1:nonzero', 'Dx3:zero-result', 'X2:nonzero', 'X4:nonzero', 'I:nonzero', 'Dx0:nonzero', 'X0:nonzero', 'win:point', 'win:empty', 'win:interval']),
+    assumptions=[A_SHAPE, A_POLY],
+)
+
+
+def c06_units(tier):
+    if tier == 'quick':
+        return [unit('q', 'checks/c06_bilinear.cpp', 'exact'), unit('q-chk', 'checks/c06_bilinear.cpp', 'chk')]
+    us = []
+    for oa in range(4):
+        for ob in range(4):
+            us.append(unit('t-o%d%d' % (oa, ob), 'checks/c06_bilinear.cpp', 'exact', shards=4,
+                           flags=['-DVF_OPS=0,1,2,3,4,5,6,7', '-DVF_OA_LIST=%d' % oa, '-DVF_OB_MIN=%d' % ob, '-DVF_OB_MAX=%d' % ob]))
+    return us
+
+
+CHECKS['C06'] = dict(
+    title='Bilinear forms equal the exact integral of the two transformed splines',
+    level='exploration',
+    technique='bounded-exhaustive enumeration of operator pairs (template instantiations), order pairs, window pairs, factor placements and coefficient patterns on the real BilinearForm with an exact rational scalar against the exact integral computed in the reference model',
+    level_text='For every ordered pair from a list of 4 (thorough 8) operator expressions, every order pair 0..2 (0..3), every ordered window pair of a 5-point grid, every placement of the spline-valued factor and unit x unit / generic coefficient patterns, the value must equal the integral of ref_apply(O1,a)*ref_apply(O2,b) over the common intervals exactly; swapping the (operator, spline) pairs must not change it; ScalarProduct equals the identity form; equal grids in distinct objects give the same value.',
+    level_note='Trusted: GMP, engine/refpp.h (antiderivative evaluated at the interval end points; shares nothing with the Horner-in-h^2 kernel). Operator pairs and orders outside the enumerated matrix are not instantiated.',
+    units=c06_units,
+    rule='cases = (grid, operator pair, order pair, factor window, window pair, coefficient-pattern pair, grid object variant). Non-trivial = exact integral non-zero.',
+    bounds=dict(quick='operators {I, X1, Dx1, V*Dx1}^2, orders 0..2, nonuni5', thorough='8 operators squared, orders 0..3, nonuni5 and far5'),
+    guards=dict(classes=['common:intervalxinterval:' + r for r in ['equal', 'overlaps', 'overlapped-by', 'starts', 'started-by', 'finishes', 'finished-by', 'contains', 'during']] +
+                ['nocommon:intervalxinterval:' + r for r in ['before', 'after', 'meets', 'met-by']] +
+                ['factor:interval:ends-inside-grid', 'factor:interval:starts-inside-grid', 'factor:point:ends-inside-grid:starts-inside-grid', 'factor:empty:ends-inside-grid', 'factor:interval']),
+    assumptions=[A_SHAPE, A_POLY],
+)
+
+CHECKS['C07'] = dict(
+    title='Linear forms equal the exact integral and agree with the bilinear form',
+    level='exploration',
+    technique='bounded-exhaustive enumeration of operator expressions, orders (both parities of the kernel size), windows, factor placements and coefficient patterns on the real LinearForm against the exact reference integral, plus exhaustive cross-check BilinearForm == LinearForm of the product spline',
+    level_text='LinearForm{O}(a) for 9 operator expressions, orders 0..4, every window of 5-point grids and unit/zero/generic coefficients equals the exact integral of ref_apply(O,a); zero for interval-free splines. For 4x4 operator pairs, orders 0..2 squared and every window pair the bilinear form equals the identity linear form of (O1 a)*(O2 b) exactly.',
+    level_note='Trusted: GMP, engine/refpp.h. The cross-check compares two library paths with each other (kernel vs operator application + product + linear kernel); both are separately compared with the reference in C06/C05/C03.',
+    units=std_units('checks/c07_linear.cpp'),
+    rule='cases = LF(grid, operator, order, factor window, window, pattern) | BFvsLF(operator pair, order pair, factor window, window pair, pattern variant). Non-trivial = the exact value is non-zero.',
+    bounds=dict(quick='9 operators, orders 0..4, nonuni5 + far5; cross-check on nonuni5', thorough='adds neg5'),
+    guards=dict(classes=['LF:interval:outsizeodd', 'LF:interval:outsizeeven', 'LF:point:outsizeodd', 'LF:empty:outsizeeven', 'cross']),
+    assumptions=[A_SHAPE, A_POLY],
+)
